@@ -151,8 +151,9 @@ func (c comboT) String() string { return fmt.Sprintf("perm=%v const=%#x", c.Perm
 // observe builds a cold istio environment for the case under the given map constant, inserting the
 // permuted objects in the given order, and generates everything three times: on the first push
 // context (rep 0), again on the same push context with fresh proxies (rep 1), and on a push context
-// rebuilt from the same stores (rep 2, what a full push does).
-func observe(c *caseT, n int, cb comboT, drop int) (o *observation, err error) {
+// rebuilt from the same stores (rep 2, what a full push does). mask selects which of the permuted objects
+// are present (all of them except for the non-triviality measurement).
+func observe(c *caseT, n int, cb comboT, mask int) (o *observation, err error) {
 	saved := runtime.VerifMapRand()
 	defer runtime.VerifSetMapRand(saved)
 	runtime.VerifSetMapRand(cb.Const)
@@ -169,7 +170,7 @@ func observe(c *caseT, n int, cb comboT, drop int) (o *observation, err error) {
 		objs = objs[:n]
 		cfgs := append([]config.Config{}, base...)
 		for _, i := range cb.Perm {
-			if i != drop {
+			if mask&(1<<i) != 0 {
 				cfgs = append(cfgs, objs[i])
 			}
 		}
@@ -178,7 +179,11 @@ func observe(c *caseT, n int, cb comboT, drop int) (o *observation, err error) {
 			mc = mesh.DefaultMeshConfig()
 			c.Mesh(mc)
 		}
-		cg := core.NewConfigGenTest(t, core.TestOptions{Configs: cfgs, MeshConfig: mc})
+		opts := core.TestOptions{Configs: cfgs, MeshConfig: mc}
+		if c.Registry != nil {
+			opts.Services, opts.Instances = c.Registry()
+		}
+		cg := core.NewConfigGenTest(t, opts)
 		o = &observation{}
 		for _, ps := range proxies {
 			o.Sections = append(o.Sections, generate(t, cg, ps, "")...)
